@@ -58,17 +58,18 @@ def generate(tier, seed, enum_keys):
             set_bits(contexts[2], s, w, 0)
         # C07: every raw value of every field in three contexts of the remaining bits
         for name, start, width, is_enum in fields:
-            maxbits = 12 if tier == "quick" else 22
+            maxbits = 12 if tier == "quick" else 16
             if width <= maxbits:
                 values = range(1 << width)
             else:
                 top = (1 << width) - 1
                 values = sorted(set([0, 1, 2, top, top - 1, top >> 1, (top >> 1) + 1, (top >> 1) - 1, 1 << (width - 1)] +
-                                    [rng.next() & top for _ in range(1500 if tier == "quick" else 20000)] +
+                                    [rng.next() & top for _ in range(1500 if tier == "quick" else 100000)] +
                                     [(1 << k) for k in range(width)] + [top ^ (1 << k) for k in range(width)]))
             for ci, ctx in enumerate(contexts):
-                if ci > 0 and width > 12 and tier == "quick":
-                    vals = list(values)[:: max(1, len(list(values)) // 200)]
+                if ci > 0 and width > 12:
+                    lv = list(values)
+                    vals = lv[:: max(1, len(lv) // (200 if tier == "quick" else 4000))]
                 else:
                     vals = values
                 for v in vals:
